@@ -1,13 +1,14 @@
 (* C03/C04: model of the resolver's Flattener (semantic/resolver/flatten.rs) at the level of transform
    kinds: which sort every take / windowed compute is handed (TransformCall.sort -> RQ Take.sort,
-   Compute.window.sort), which Sort transforms survive (a sort in front of a partitioned group is
-   "undone": recorded but not emitted), how group bodies, window bodies and relational arguments
-   (join / append / loop) scope the carried sort and the partition, and where an aggregate ends the
-   sort.  Sort keys are opaque tokens.  Definitions only.
+   Compute.window.sort), by how many columns it is partitioned, which Sort transforms survive (a sort in
+   front of a partitioned group is "undone": recorded but not emitted), how group bodies, window bodies
+   and relational arguments (join / append / loop) scope the carried sort and the partition, and where
+   an aggregate ends the sort.  Sort keys are opaque tokens; a partition is represented by the NUMBER of
+   its key columns.  Definitions only.
 
    Mirrors flatten.rs as of fixes 8f24a64 (relational arguments), 592b6f8 (leaving a nested group
    restores the enclosing partition) and 8d54bf7 (an aggregate outside of any group ends the sort). *)
-From Coq Require Import List Bool.
+From Coq Require Import List Bool Arith.
 Import ListNotations.
 
 Section Flatten.
@@ -20,24 +21,24 @@ Section Flatten.
   | PWin                           (* a windowed compute (derive/select of a window function) *)
   | POther                         (* filter, derive, select ...: no effect on the carried sort *)
   | PAgg                           (* aggregate *)
-  | PGroup (nonempty : bool) (body : list pitem)     (* group {by} (body); nonempty = `by` is not the empty tuple *)
+  | PGroup (nkeys : nat) (body : list pitem)     (* group {by} (body); nkeys = number of columns of `by` (0: the empty tuple) *)
   | PWindow (body : list pitem)    (* window rows:.. (body) *)
   | PSub (body : list pitem).      (* join / append / loop with a relational argument `body` *)
 
   Inductive out :=
   | OSort (k : key)
-  | OTake (partitioned : bool) (sort : key)
-  | OWin (partitioned : bool) (sort : key).
+  | OTake (partition : nat) (sort : key)       (* partition = number of columns of Take.partition *)
+  | OWin (partition : nat) (sort : key).
 
-  Definition is_ne_group (i : pitem) : bool := match i with PGroup true _ => true | _ => false end.
+  Definition is_ne_group (i : pitem) : bool := match i with PGroup (S _) _ => true | _ => false end.
 
-  (* Flattener.partition : Option<Box<Expr>>.  None = outside of any group; Some ne = inside `group by (..)`,
-     ne = `by` is not the empty tuple (RQ Take.partition / Window.partition is non-empty exactly then) *)
-  Definition partitioned (part : option bool) : bool := match part with Some true => true | _ => false end.
-  Definition in_group (part : option bool) : bool := match part with Some _ => true | None => false end.
+  (* Flattener.partition : Option<Box<Expr>>.  None = outside of any group; Some n = inside `group by (..)`, the
+     partition in force has n columns *)
+  Definition pcount (part : option nat) : nat := match part with Some n => n | None => 0 end.
+  Definition in_group (part : option nat) : bool := match part with Some _ => true | None => false end.
 
   (* fuel bounds the nesting depth + length; out of fuel = ([], s) and is excluded by the statements *)
-  Fixpoint flat (fuel : nat) (und : bool) (part : option bool) (s : key) (p : list pitem) : list out * key :=
+  Fixpoint flat (fuel : nat) (und : bool) (part : option nat) (s : key) (p : list pitem) : list out * key :=
     match fuel with
     | O => ([], s)
     | S f =>
@@ -50,16 +51,18 @@ Section Flatten.
           | PSort k =>
               let '(o, s') := flat f und part k rest in
               ((if und_i then [] else [OSort k]) ++ o, s')
-          | PTake => let '(o, s') := flat f und part s rest in (OTake (partitioned part) s :: o, s')
-          | PWin => let '(o, s') := flat f und part s rest in (OWin (partitioned part) s :: o, s')
+          | PTake => let '(o, s') := flat f und part s rest in (OTake (pcount part) s :: o, s')
+          | PWin => let '(o, s') := flat f und part s rest in (OWin (pcount part) s :: o, s')
           | POther => flat f und part s rest
           | PAgg =>
               (* `ends_sort = self.partition.is_none() && Aggregate`: the sort is cleared after the aggregate's own
                  TransformCall was built -- only outside of any group *)
               flat f und part (if in_group part then s else empty) rest
-          | PGroup ne body =>
-              let und_b := if ne then true else und_i in
-              let '(ob, _) := flat f und_b (Some ne) empty body in
+          | PGroup n body =>
+              let und_b := match n with S _ => true | O => und_i end in
+              (* `self.partition.replace(by)`: inside the body the partition is the group's OWN key, whatever group
+                 encloses it *)
+              let '(ob, _) := flat f und_b (Some n) empty body in
               (* group resets the order; the enclosing partition applies again (fix 592b6f8) *)
               let '(o, s') := flat f und part empty rest in
               (ob ++ o, s')
@@ -75,21 +78,22 @@ Section Flatten.
       end
     end.
 
-  (* ---- specification: the order in effect at every take / windowed compute, in pipeline order.
-     sort introduces it; aggregate ends it; a group body starts without one and the group resets it
-     afterwards; a window body inherits and passes it on; relational arguments do not touch it. *)
-  Fixpoint carried_spec (fuel : nat) (part : option bool) (s : key) (p : list pitem) : list (bool * key) * key :=
+  (* ---- specification: the order in effect and the partition at every take / windowed compute, in pipeline order.
+     sort introduces an order; aggregate ends it; a group body starts without one and the group resets it
+     afterwards; a window body inherits and passes it on; relational arguments do not touch it.  A group nested
+     in the body of a group splits every chunk of the outer group: its partition is the outer keys AND its own. *)
+  Fixpoint carried_spec (fuel : nat) (part : option nat) (s : key) (p : list pitem) : list (nat * key) * key :=
     match fuel with
     | O => ([], s)
     | S f =>
       match p with
       | [] => ([], s)
       | PSort k :: rest => carried_spec f part k rest
-      | PTake :: rest | PWin :: rest => let '(o, s') := carried_spec f part s rest in ((partitioned part, s) :: o, s')
+      | PTake :: rest | PWin :: rest => let '(o, s') := carried_spec f part s rest in ((pcount part, s) :: o, s')
       | POther :: rest | PSub _ :: rest => carried_spec f part s rest
       | PAgg :: rest => carried_spec f part empty rest
-      | PGroup ne body :: rest =>
-          let '(ob, _) := carried_spec f (Some ne) empty body in
+      | PGroup n body :: rest =>
+          let '(ob, _) := carried_spec f (Some (pcount part + n)) empty body in
           let '(o, s') := carried_spec f part empty rest in (ob ++ o, s')
       | PWindow body :: rest =>
           let '(ob, sb) := carried_spec f part s body in
@@ -97,30 +101,48 @@ Section Flatten.
       end
     end.
 
-  Definition carried_of (o : list out) : list (bool * key) :=
+  Definition carried_of (o : list out) : list (nat * key) :=
     flat_map (fun x => match x with OTake p k | OWin p k => [(p, k)] | OSort _ => [] end) o.
 
-  (* ---- the known class (finding F44): an aggregate INSIDE a group body that is not the last transform of that
-     body keeps the sort in effect for what follows it (the code ends the sort only outside of groups).
-     `tame ing p`: no such aggregate in p, where ing = p is (part of) a group body. *)
+  (* ---- the known classes.
+     F44: an aggregate INSIDE a group body that is not the last transform of that body keeps the sort in effect for
+     what follows it (the code ends the sort only outside of groups).
+     `tame_agg ing p`: no such aggregate in p, where ing = p is (part of) a group body. *)
   Fixpoint has_agg (fuel : nat) (p : list pitem) : bool :=
     match fuel with
     | O => true
     | S f => existsb (fun i => match i with PAgg => true | PWindow b => has_agg f b | _ => false end) p
     end.
 
-  Fixpoint tame (fuel : nat) (ing : bool) (p : list pitem) : bool :=
+  Fixpoint tame_agg (fuel : nat) (ing : bool) (p : list pitem) : bool :=
     match fuel with
     | O => false
     | S f =>
       match p with
       | [] => true
-      | PAgg :: rest => (negb ing || match rest with [] => true | _ => false end) && tame f ing rest
-      | PGroup _ body :: rest => tame f true body && tame f ing rest
-      | PWindow body :: rest => (negb ing || negb (has_agg f body)) && tame f ing body && tame f ing rest
-      | _ :: rest => tame f ing rest
+      | PAgg :: rest => (negb ing || match rest with [] => true | _ => false end) && tame_agg f ing rest
+      | PGroup _ body :: rest => tame_agg f true body && tame_agg f ing rest
+      | PWindow body :: rest => (negb ing || negb (has_agg f body)) && tame_agg f ing body && tame_agg f ing rest
+      | _ :: rest => tame_agg f ing rest
       end
     end.
+
+  (* F45: a group nested in the body of a group with a non-empty key is partitioned by its own key only.
+     `tame_nest part p`: no group of p sits inside a non-empty partition *)
+  Fixpoint tame_nest (fuel : nat) (part : option nat) (p : list pitem) : bool :=
+    match fuel with
+    | O => false
+    | S f =>
+      match p with
+      | [] => true
+      | PGroup n body :: rest => Nat.eqb (pcount part) 0 && tame_nest f (Some n) body && tame_nest f part rest
+      | PWindow body :: rest => tame_nest f part body && tame_nest f part rest
+      | _ :: rest => tame_nest f part rest
+      end
+    end.
+
+  Definition tame (fuel : nat) (part : option nat) (p : list pitem) : bool :=
+    tame_agg fuel (in_group part) p && tame_nest fuel part p.
 End Flatten.
 
 Arguments PSort {key}. Arguments PTake {key}. Arguments PWin {key}. Arguments POther {key}. Arguments PAgg {key}.
